@@ -261,6 +261,18 @@ def load_cases(ctx):
         out.append(e.bs)
         if ctx.rng.random() < 0.3:
             out += neighbours(e, ctx.rng, full=False)
+    # payload lengths around every power of two and every multiple of 16 up to 128 (fixed-size scratch buffers in
+    # post-decode operations): standalone, as an array element, and as two chunks of an indefinite string
+    lens = sorted(set(list(range(0, 41)) + [16 * k + d for k in range(1, 9) for d in (-1, 0, 1)]
+                      + [2 ** k + d for k in range(7, 13) for d in (-1, 0, 1)] + [160, 192, 224, 320, 384]))
+    for mt in (2, 3):
+        for n in lens:
+            pay = [(0x41 + (i * 7) % 26) if mt == 3 else ((i * 37 + 11) & 0xFF) for i in range(n)]
+            w = 0 if n < 24 else 1 if n < 256 else 2
+            item = head(mt, n, w) + pay
+            out.append(item)
+            out.append([0x82] + item + [0x01])
+            out.append([0x5F if mt == 2 else 0x7F] + item + item + [0xFF])
     # declared sizes near the allocator cap and near 2^64 (size arithmetic, refusals)
     for mt in (2, 3, 4, 5):
         for v in (2 ** 16, 2 ** 17 - 1, 2 ** 17, 2 ** 20, 2 ** 32 - 1, 2 ** 32, 2 ** 59, 2 ** 60, 2 ** 61, 2 ** 63, 2 ** 64 - 9, 2 ** 64 - 1):
